@@ -724,7 +724,12 @@ func EncodeLangViews(
 		case 1, 2, 3: // PlutusV2, PlutusV3, PlutusV4
 			// Tags are single-byte CBOR encodings for small unsigned ints.
 			tag = []byte{byte(version)}
-			// Cost model uses definite-length list (no bytestring wrapper)
+			// Cost model uses definite-length list (no bytestring wrapper).
+			// A nil slice would be encoded as CBOR null (0xf6); the language
+			// view of an empty cost model is the empty list (0x80).
+			if costModel == nil {
+				costModel = []int64{}
+			}
 			params, err = cbor.Encode(costModel)
 			if err != nil {
 				return nil, err
